@@ -125,6 +125,14 @@ def run(rep, ctx, tier):
         b = f.find1(**find)
         if b is not None:
             R5.check_measured(rep, ctx, "R5m", key, b, None, "TooManyCoefficients", idx, "polynomial", g=graphs.get((b.id, None)))
+    # R5i: no verifier adds entries to the claimed-evaluations map it was handed (a missing claim must be refused)
+    from ..rules import noinsert as R5I
+    n_maps = 0
+    for a in ctx.verifier_anchors([]):
+        n_maps += R5I.run(rep, ctx, a, "R5i")
+    rep.count("verifier_anchors_with_claims_map", n_maps)
+    if n_maps < 12:
+        rep.add("R5i", "floor", False, "only %d verifier anchors take a map of claimed evaluations (floor 12): fail closed" % n_maps, None)
     # ERR-PROPAGATES over the closures of all entry points above
     seen_sites = set()
     n = 0
